@@ -14,7 +14,7 @@ from vlib.core import Inconclusive
 from props import rpcpipe
 
 LEVEL = "model_checking"
-MINE = rpcpipe.C06_EVENTS
+MINE = lambda key: key not in rpcpipe.C07_EVENTS     # every rejection is reported by exactly one of C06 / C07
 
 
 def collect(ctx):
@@ -26,14 +26,18 @@ def collect(ctx):
     for s in (s1, s2, s3):
         rng.shuffle(s)
     n = 500 if ctx.quick else 6000
-    scripts = s1[:n] + s2[:n] + s3[:n // 2]
-    ctx.log("RpcEnv: %d + %d + %d scripts, %d chosen" % (len(s1), len(s2), len(s3), len(scripts)))
+    emb, est, egen = rpcpipe.gen_embargo(ctx, sd, 3 if ctx.quick else 4, 5 if ctx.quick else 7)
+    scripts = emb + s1[:n] + s2[:n] + s3[:n // 2]
+    if os.environ.get("VERIF_RPC_ONLY") == "embargo":      # development aid
+        scripts = emb
+    ctx.log("RpcEnv: %d + %d + %d scripts, %d chosen; RpcEmbargo: %d scripts (%d states, design invariants hold, control violates InOrder)"
+            % (len(s1), len(s2), len(s3), len(scripts) - len(emb), len(emb), est))
     drv = gobuild.build(ctx, "rpcdrv")
     tf = os.path.join(sd, "rpctrace.ndjson")
     found, summ = rpcpipe.run_scripts(ctx, drv, scripts, tf)
     rej, states = rpcpipe.validate(ctx, sd, tf, None)
-    return dict(sd=sd, scripts=scripts, found=found, summ=summ, rej=rej, states=states + r1.distinct + r2.distinct + r3.distinct,
-                trans=r1.generated + r2.generated + r3.generated)
+    return dict(sd=sd, scripts=scripts, found=found, summ=summ, rej=rej, states=states + r1.distinct + r2.distinct + r3.distinct + est,
+                trans=r1.generated + r2.generated + r3.generated + egen, embargo=len(emb))
 
 
 def report(ctx, res, mine, label):
@@ -46,7 +50,7 @@ def report(ctx, res, mine, label):
                           "the process died (%s) in %s while running script %s" % (m["head"], m["frame"], json.dumps([rpcpipe.brief(a) for a in m["script"]])), m)
     other = 0
     for key, off, ex, pos in res["rej"]:
-        if key in mine:
+        if mine(key):
             ctx.violation("trace:%s:%s" % (key, off.get("kind", "")),
                           "execution %s is not a behaviour of RpcTrace: first unexplained event #%d %s; trace=%s" % (
                               ex[0].get("h"), pos, json.dumps(rpcpipe.brief(off)), json.dumps([rpcpipe.brief(e) for e in ex])[:3500]),
